@@ -29,6 +29,7 @@ pub static SPEC: Spec = Spec {
         "crash_points",
         "big_core_observations",
         "replica_completed_a_full_page",
+        "live_instance_invariant_checks",
     ],
     rule: "a case = one history scaled so that block indices cross 8192 / 32768 / 65536 (98304 in thorough): batch appends of 8000-40000 one-byte blocks, clears straddling page edges, reopen after steps, replicas fetching blocks pages apart and out of order, sampled crash recovery (64 journal prefixes per big history); after EVERY step has(i) is probed for EVERY i < length+2 plus 6 offsets in each of the next 4 pages plus 2^32, 2^40-1, u64::MAX and compared with the model (true exactly for stored blocks), and info().contiguous_length must equal the smallest missing index; small histories: the bounded-exhaustive L=4 set and seeded-random histories with the same oracle; distinct = history hash; evaluations = histories + crash points",
     assumptions: &["get() is sampled on big cores (64 indices incl. page edges); has() is exhaustive below length+2"],
@@ -235,6 +236,93 @@ fn sampled_crashes(ctx: &mut Ctx, ops: &[Op], key_seed: u64, r: &mut Rng, n: usi
     crash::enumerate(ctx, &rec, &o, r);
 }
 
+/// "At every moment": the part of the property that does not depend on whether a call took
+/// effect - has(i) is false at and beyond the reported length, and the contiguous length is the
+/// smallest index not held - must also hold on the *live* instance right after a call that
+/// failed through a storage fault, after the next successful call, and after a reopen.
+fn invariants(core: &mut hypercore::Hypercore, when: &str) -> Result<(), Fail> {
+    let info = core.info();
+    let len = info.length;
+    for i in (len..len + 70).chain(FAR_PROBES.iter().map(|p| len + 1 + *p)) {
+        if core.has(i) {
+            return Err(crate::ops::fail(format!("live:{when}:has-beyond-length"), format!("has({i}) is true although the length is {len}")));
+        }
+    }
+    let mut first_missing = len;
+    for i in 0..len {
+        if !core.has(i) {
+            first_missing = i;
+            break;
+        }
+    }
+    if info.contiguous_length != first_missing {
+        return Err(crate::ops::fail(
+            format!("live:{when}:contiguous-{}", if info.contiguous_length > first_missing { "high" } else { "low" }),
+            format!("contiguous_length {} but the smallest index not held is {first_missing} (length {len})", info.contiguous_length),
+        ));
+    }
+    Ok(())
+}
+
+fn live_after_fault(ctx: &mut Ctx, r: &mut Rng) -> Result<(), Fail> {
+    let world = World::new();
+    let mut sut = Sut::create(r.next_u64(), world.clone(), CacheMode::None)?;
+    let cfg = gen::RandCfg { max_ops: 14, reopen_pct: 10, clear_pct: 25, read_pct: 0, max_block: 8, big_batch: 40, far_clear: true };
+    let ops = gen::random_history(r, &cfg);
+    let muts: Vec<usize> = ops.iter().enumerate().filter(|(_, o)| matches!(o, Op::Append(..) | Op::Batch(..) | Op::Clear(..))).map(|(i, _)| i).collect();
+    if muts.is_empty() {
+        return Ok(());
+    }
+    let target = *r.pick(&muts);
+    for (i, op) in ops.iter().enumerate() {
+        if i != target {
+            sut.step(op).map_err(|f| crate::ops::fail(format!("scenario:{}", f.sig), f.detail))?;
+            continue;
+        }
+        {
+            let mut w = world.lock().unwrap();
+            let k = w.op_counter + r.below(14);
+            w.fail_at = Some(k);
+        }
+        let res = sut.step(op);
+        let fired = world.lock().unwrap().failed.is_some();
+        world.lock().unwrap().fail_at = None;
+        if !fired {
+            ctx.count("live_fault_not_reached");
+            res.map_err(|f| crate::ops::fail(format!("scenario:{}", f.sig), f.detail))?;
+            continue;
+        }
+        if res.is_ok() {
+            // C10's business
+            ctx.count("scenario_unusable");
+            return Ok(());
+        }
+        ctx.count(&format!("live_fault_in:{}", op.kind()));
+        if std::env::var("HC_DEBUG_LIVE").is_ok() {
+            eprintln!("ops {:?}\n target #{target} {:?} failed at {:?} result {:?} info {:?}", ops, op, world.lock().unwrap().failed, res.as_ref().err().map(|f| f.sig.clone()), sut.core().info());
+        }
+        invariants(sut.core(), &format!("after-failed-{}", op.kind()))?;
+        ctx.count("live_instance_invariant_checks");
+        // Informational only (outside every property: C10 prescribes dropping the instance after
+        // an error): the same instance keeps being used for one more append and is then reopened.
+        let r2 = crate::exec::call(sut.core().append(b"after the fault"));
+        if std::env::var("HC_DEBUG_LIVE").is_ok() {
+            eprintln!(" next append: {:?} info {:?}", r2.as_ref().map(|x| x.as_ref().map_err(|e| e.to_string())), sut.core().info());
+        }
+        let acked = matches!(r2, Ok(Ok(_)));
+        let live_len = sut.core().info().length;
+        let live_ok = invariants(sut.core(), "x").is_ok();
+        sut.core = None;
+        if let Ok(Ok(mut c)) = crate::ops::build_core(&world, None, true, CacheMode::None) {
+            let ok = invariants(&mut c, "x").is_ok();
+            let lost = acked && c.info().length < live_len;
+            ctx.count(if ok && live_ok && !lost { "info:continued_use_after_fault:consistent_after_reopen" } else { "info:continued_use_after_fault:inconsistent_or_acknowledged_append_lost_after_reopen" });
+        }
+        return Ok(());
+    }
+    Ok(())
+}
+
 fn report(ctx: &mut Ctx, i: usize, f: Fail, ops: &[Op]) {
     // compact replay for big batches
     let desc: Vec<String> = ops
@@ -314,7 +402,19 @@ fn run_case(ctx: &mut Ctx, id: u64) {
         }
         return;
     }
-    // seeded random: mostly medium histories with clears and reopens; some replicas
+    // seeded random: mostly medium histories with clears and reopens; some replicas; some
+    // live-instance invariant checks around a call failed by a storage fault
+    if r.chance(1, 5) {
+        ctx.eval(Some(r.0));
+        if let Err(f) = live_after_fault(ctx, &mut r) {
+            if f.sig.starts_with("scenario:") {
+                ctx.count("scenario_unusable");
+            } else {
+                ctx.violate(f.sig, f.detail, json!({"kind":"live-after-fault"}));
+            }
+        }
+        return;
+    }
     if r.chance(1, 30) {
         ctx.eval(Some(r.0));
         if let Err(f) = replica_far(ctx, &mut r, 1) {
